@@ -185,6 +185,32 @@ impl World {
     self.check_pk(rec, c)
   }
 
+  /// import the current instance's exported state into an EXISTING instance
+  /// (a replica that already holds an earlier or unrelated state) and switch to it
+  fn resync_into(&mut self, rec: &mut Rec, target: usize) -> bool {
+    rec.ev("op_resync");
+    let i = self.cur;
+    let bytes = match bincode::serialize(&self.insts[i].0.get_private_key()) {
+      Ok(b) => b,
+      Err(e) => {
+        rec.violation("export-failed", e.to_string(), self.replay(json!({})));
+        return false;
+      }
+    };
+    match bincode::deserialize::<ServerKeyState>(&bytes) {
+      Ok(st) => self.insts[target].0.set_private_key(st),
+      Err(e) => {
+        rec.violation("import-failed", e.to_string(), self.replay(json!({})));
+        return false;
+      }
+    }
+    // whole-state replacement: the importer is the exporter at the moment of export
+    let m = self.insts[i].1.clone();
+    self.insts[target].1 = m;
+    self.cur = target;
+    self.check_pk(rec, target)
+  }
+
   fn clone_switch(&mut self, rec: &mut Rec) {
     rec.ev("op_clone");
     let i = self.cur;
@@ -232,8 +258,9 @@ fn exhaustive(rec: &mut Rec, depth: usize, a: u8, b: u8, u: u8, extra_registered
       rec.case(&("seq", probe, &w.hist));
       return w2.check_all(rec, probe);
     }
-    // alphabet: eval x3 tags, puncture x3 tags, export-import, clone-and-switch
-    for op in 0..8usize {
+    // alphabet: eval x3 tags, puncture x3 tags, export-import into a fresh
+    // instance, clone-and-switch, re-sync into the oldest instance
+    for op in 0..9usize {
       if only.map(|o| o != op).unwrap_or(false) {
         continue;
       }
@@ -253,10 +280,14 @@ fn exhaustive(rec: &mut Rec, depth: usize, a: u8, b: u8, u: u8, extra_registered
           w2.hist.push("export+import".into());
           w2.export_import(rec, probe[2].wrapping_add(100))
         }
-        _ => {
+        7 => {
           w2.hist.push("clone+switch".into());
           w2.clone_switch(rec);
           true
+        }
+        _ => {
+          w2.hist.push("resync-into(0)".into());
+          w2.resync_into(rec, 0)
         }
       };
       if !ok || !go(rec, &w2, depth - 1, probe, leaves, None) {
@@ -323,9 +354,15 @@ fn random_history(rec: &mut Rec, ctx: &Ctx, idx: u64, rng: &mut ChaCha20Rng) {
         w.export_import(rec, rng.gen())
       }
       17 => {
-        w.hist.push("clone+switch".into());
-        w.clone_switch(rec);
-        true
+        if rng.gen_bool(0.5) {
+          w.hist.push("clone+switch".into());
+          w.clone_switch(rec);
+          true
+        } else {
+          let target = rng.gen_range(0..w.insts.len());
+          w.hist.push(format!("resync-into({})", target));
+          w.resync_into(rec, target)
+        }
       }
       _ => {
         // switch back to an older instance: clones / exporters evolve independently
@@ -598,12 +635,12 @@ pub fn run(ctx: &Ctx) -> Rec {
   ];
   let only = ctx.extra.get("only").cloned().unwrap_or_default();
   let want = |k: &str| only.is_empty() || only == k;
-  let ncfg = if !want("exhaustive") { 0 } else if ctx.scale < 1.0 { 1 } else { configs.len() as u64 };
-  let mut rec = par_run(ctx, "exhaustive", ncfg * 8, |rec, i, _| {
-    let (a, b, u, extra) = &configs[(i / 8) as usize];
-    exhaustive(rec, depth, *a, *b, *u, extra, (i % 8) as usize);
+  let ncfg = if !want("exhaustive") { 0 } else if ctx.scale < 1.0 { 1 } else if ctx.thorough() { configs.len() as u64 } else { 4 };
+  let mut rec = par_run(ctx, "exhaustive", ncfg * 9, |rec, i, _| {
+    let (a, b, u, extra) = &configs[(i / 9) as usize];
+    exhaustive(rec, depth, *a, *b, *u, extra, (i % 9) as usize);
     if i == 0 {
-      rec.sample(json!({"exhaustive_alphabet": ["eval(a)", "eval(b)", "eval(u)", "puncture(a)", "puncture(b)", "puncture(u)", "export+import", "clone+switch"], "a": a, "b": b, "unregistered": u, "depth": depth}));
+      rec.sample(json!({"exhaustive_alphabet": ["eval(a)", "eval(b)", "eval(u)", "puncture(a)", "puncture(b)", "puncture(u)", "export+import(fresh)", "clone+switch", "resync-into(oldest)"], "a": a, "b": b, "unregistered": u, "depth": depth}));
     }
   });
   rec.note("exhaustive_depth", json!(depth));
